@@ -345,7 +345,8 @@ class Polygon(Shape2D):
         i_y, i_x, _ = np.abs(np.sum(diag_sums, axis=0) / 12)
 
         xy_sums = areas * (xi_yip1 + 2 * (xi_yi + xip1_yip1) + xip1_yi)
-        i_xy = np.abs(np.sum(xy_sums) / 24)
+        # The product of inertia is signed; only undo the orientation sign.
+        i_xy = np.sign(np.sum(areas)) * np.sum(xy_sums) / 24
 
         return i_x, i_y, i_xy
 
